@@ -66,6 +66,9 @@ ChainFields == { <<F(AKey, "s"), F(ABin("+", AName("s"), AStr(xx)), "t"), F(ABin
 Selects == { Stmt("select", <<>>, w, <<>>, <<>>) : w \in Wheres }
            \cup { Stmt("select", f, w, <<>>, <<>>) : f \in ChainFields, w \in {P1} }
            \cup { Stmt("select", <<F(AKey, ""), F(AIdx(AIdx(Call1("json", AVal), AStr(a)), AStr(bb)), "jj")>>, P1, <<>>, <<>>) }
+           \* one name used three and four times in WHERE (every use typed alike, in both iteration modes)
+           \cup { Stmt("select", <<F(AKey, ""), F(Call1("strlen", AVal), "v")>>, ABin("&", ABin("&", ABin(">", AName("v"), AInt(0)), ABin("<", AInt(1), ABin("*", AName("v"), AInt(2)))), ABin("<", AName("v"), AInt(8))), <<>>, <<>>),
+                   Stmt("select", <<F(AKey, "k"), F(AVal, "")>>, ABin("&", ABin("&", ABin(">", AName("k"), AStr(<<>>)), ABin("!=", Call1("upper", AName("k")), AStr(AB))), ABin("|", ABin("^=", AName("k"), AStr(a)), ABin("=", ABin("+", AName("k"), AStr(xx)), AStr(xx)))), <<>>, <<>>) }
            \* (a name built on another name is not typed inside WHERE by the engine's checker: such statements are refused, DESIGN.md 0.4)
            \cup { Stmt("select", f, w, <<>>, <<>>) : f \in Fields, w \in {P1, P9, ANot(P3)} }
            \cup { Stmt("select", <<F(AKey, ""), F(Call1("int", AVal), "n")>>, ABin("&", ABin(">", AName("n"), AInt(1)), P1), <<>>, <<>>) }
